@@ -302,6 +302,9 @@ def _analyse_target(case, tier, props, p, meta, tdir, res, tr, jac_terms, seed):
                 _replay_fex(case, p, meta, tdir, res, "C01", name, i, fex, m, slots, NS, thermal, nat, seed)
             else:
                 _unk(res, "C01", name, "solver " + r)
+        # the integrator evaluates the right-hand side over and over: a second evaluation in the state the first left
+        if NS >= 1 and NR >= 1:
+            _c01_second_call(case, p, tdir, res, fex, q, NEQ, tag)
         # cusparse: the kernel walks several cells; the second cell must obey the same law with *its* abundances,
         # parameters and helper values (one thread, two systems)
         if kind == "cusparse" and NS >= 1 and NR >= 1:
@@ -789,6 +792,111 @@ def cusparse_driver(p, tdir, nsystem):
     return out
 
 
+def cpu_driver(p, tdir):
+    """Naunet::Init then Naunet::Reset of the dense / sparse (KLU) driver executed over the object state with the
+    SUNDIALS constructors as recording stubs (all succeed): how the matrix kept in cv_a_ was allocated and which
+    matrix the linear solver was built with, per call."""
+    from . import harness as H
+    from .checks import c19
+    from .irsym import Machine, Ptr, State
+
+    ll, err = p.compile_ir(tdir, "naunet.cpp")
+    if ll is None:
+        raise Inconclusive("naunet.cpp does not lower: " + err[-200:])
+    M = Machine([ll], H.base_stubs())
+    dem = H.demangle(sorted(M.funcs))
+    fields = c19.class_fields(p, tdir)
+    offs, size, _ = M.struct_layout("%class.Naunet")
+    if len(fields) != len(offs) or "cv_a_" not in fields or "cv_ls_" not in fields:
+        raise Inconclusive("class Naunet layout not recognised")
+    fo = {n: o for n, (o, _) in zip(fields, offs)}
+    rec = {"new": [], "ls": [], "n": 0}
+
+    def new(prefix, st, sz=8):
+        rec["n"] += 1
+        o = f"{prefix}{rec['n']}"
+        st.size[o], st.mem[o] = sz, {}
+        return Ptr(o, 0)
+
+    def newmat(kind_):
+        def f(M_, st, a):
+            ptr = new("mat", st)
+            rec["new"].append((ptr.obj, [kind_] + [x for x in a[:4] if not isinstance(x, Ptr)]))
+            return st, ptr
+        return f
+
+    def linsol(kind_):
+        def f(M_, st, a):
+            rec["ls"].append((kind_, a[1].obj if isinstance(a[1], Ptr) else None))
+            return st, new("ls", st)
+        return f
+
+    noop = lambda M_, st, a: (st, 0)
+
+    def ctx(M_, st, a):
+        st.store(a[1].obj, a[1].off, new("ctx", st))
+        return st, 0
+
+    M.stubs.update({"SUNDenseMatrix": newmat("dense"), "SUNSparseMatrix": newmat("sparse"), "SUNLinSol_Dense": linsol("dense"), "SUNLinSol_KLU": linsol("klu"), "SUNMatDestroy": noop, "SUNLinSolFree": noop,
+                    "N_VDestroy": noop, "N_VFreeEmpty": noop, "N_VNewEmpty_Serial": lambda M_, st, a: (st, new("nv", st)), "SUNContext_Create": ctx, "SUNContext_Free": noop,
+                    "fopen": lambda M_, st, a: (st, Ptr("errfp", 0)), "printf": noop})
+    entry = {}
+    for n, d in dem.items():
+        if d.startswith("Naunet::Init("):
+            entry["Init"] = n
+        elif d.startswith("Naunet::Reset("):
+            entry["Reset"] = n
+    if len(entry) != 2:
+        raise Inconclusive("Naunet::Init / Naunet::Reset not found")
+    st = State()
+    st.size["this"], st.mem["this"] = size, {}
+    st.size["errfp"] = 8
+    out = {}
+    for which in ("Init", "Reset", "Reset-again"):
+        rec["new"].clear(), rec["ls"].clear()
+        _, ret = M.run_function(entry[which.split("-")[0]], st, [Ptr("this", 0), 1, z3.Real("atol"), z3.Real("rtol"), 500])
+        held = st.load("this", fo["cv_a_"])
+        ls = st.load("this", fo["cv_ls_"])
+        out[which] = {"ret": ret, "held": held.obj if isinstance(held, Ptr) else None, "allocated": list(rec["new"]), "linsol": list(rec["ls"]), "ls_held": ls.obj if isinstance(ls, Ptr) else None}
+    return out
+
+
+def _c03_cpu_driver(case, p, tdir, res, NEQ, NNZ, tag, kind):
+    """dense / sparse: the matrix the driver keeps (and builds the linear solver with) has the declared shape and,
+    for the sparse layout, the declared storage format (CSR: the generated Jac fills row pointers and column
+    indices) -- after Init and again after every Reset"""
+    try:
+        out = cpu_driver(p, tdir)
+    except Inconclusive as e:
+        _unk(res, "C03", f"{tag}:driver", str(e)[:200])
+        return
+    res["functions"] += [f"{tdir}:Naunet::Init", f"{tdir}:Naunet::Reset"]
+    CSR = 1  # CSR_MAT of sundials_types.h (CSC_MAT = 0)
+    want = ["dense", NEQ, NEQ] if kind == "dense" else ["sparse", NEQ, NEQ, NNZ, CSR]
+    for which, o in out.items():
+        alloc = dict(o["allocated"])
+        bad = None
+        if o["ret"] != 0:
+            bad = f"returns {o['ret']} although every set-up call succeeds"
+        elif o["held"] is None:
+            bad = "keeps no matrix"
+        elif o["held"] not in alloc:
+            bad = "keeps a matrix that this call did not allocate (stale or destroyed object)"
+        elif list(alloc[o["held"]]) != want:
+            a_ = alloc[o["held"]]
+            fmt = {1: "CSR_MAT", 0: "CSC_MAT"}
+            bad = (f"allocates the Jacobian as {a_[0]} matrix {tuple(a_[1:4])}" + (f" in format {fmt.get(a_[4], a_[4])}" if len(a_) > 4 else "")
+                   + f"; the generated Jacobian fills a {want[0]} matrix ({NEQ}, {NEQ}" + (f", {NNZ}) in format CSR_MAT (row pointers, column indices)" if kind == "sparse" else ")"))
+        elif not o["linsol"] or o["linsol"][-1][1] != o["held"]:
+            bad = "builds the linear solver with another matrix than the one it keeps"
+        elif o["linsol"][-1][0] != ("dense" if kind == "dense" else "klu"):
+            bad = f"builds a {o['linsol'][-1][0]} linear solver for the {kind} layout"
+        if bad:
+            _viol(res, "C03", f"{case.name}/{tdir}:driver:{which}", f"{kind} Naunet::{which.split('-')[0]} {bad}", {"case": case.name, "target": tdir, "call": which, "trace": {k: str(v)[:300] for k, v in o.items()}, "replay_note": "call sequence read from the symbolic execution of the compiled naunet.cpp (all set-up calls succeeding); the constructor arguments are literal in the emitted source"})
+        else:
+            _ok(res, "C03")
+
+
 def _c03_driver(case, p, tdir, res, NEQ, NNZ, tag):
     """cusparse only: the block-CSR matrices the driver hands to the solver have the declared shape and carry the
     generated pattern (InitJac) -- after Init and again after every Reset"""
@@ -830,6 +938,8 @@ def _c03_driver(case, p, tdir, res, NEQ, NNZ, tag):
 def _c03_target(case, p, meta, tdir, res, fex, jac, J, structural, q, NEQ, NNZ, NR, NH, NC, tag, kind):
     if kind == "cusparse" and NNZ:
         _c03_driver(case, p, tdir, res, NEQ, NNZ, tag)
+    if kind in ("dense", "sparse") and NNZ and (case.name.startswith(("N1", "U3", "B-minimal")) or "thermal" in case.tags):
+        _c03_cpu_driver(case, p, tdir, res, NEQ, NNZ, tag, kind)
     # (c) bounds: every access of Fex and Jac stayed inside the declared sizes
     for run, nm in ((fex, "Fex"), (jac, "Jac")):
         if run is None:
@@ -887,6 +997,40 @@ def _c03_target(case, p, meta, tdir, res, fex, jac, J, structural, q, NEQ, NNZ, 
             _viol(res, "C03", f"{tag}:pattern", f"jac_pattern.dat marks different entries than the Jacobian stores, e.g. {diff}", {"case": case.name, "target": tdir, "diff": diff})
         else:
             _ok(res, "C03")
+
+
+def _c01_second_call(case, p, tdir, res, fex, q, NEQ, tag):
+    """Fex executed twice on one interpreter state (statics and globals persist), the second time with other
+    abundances and a derivative buffer that still holds old values: every slot is assigned again and equals the
+    first evaluation's term with the new abundances substituted"""
+    name = f"{tag}:second-call"
+    try:
+        f2 = ode.run_fex(p, tdir, second_call=True)
+    except Inconclusive as e:
+        _unk(res, "C01", name, str(e)[:200])
+        return
+    if f2.compile_errors or not getattr(f2, "first_ydot", None):
+        return
+    sub = list(zip(f2.y, f2.y2))
+    for i in range(NEQ):
+        a, b = f2.first_ydot[i], f2.ydot[i]
+        if a is None or b is None:
+            continue
+        if not is_sym(a):
+            want = R(a)
+        else:
+            want = z3.substitute(R(a), *[(x, y_) for x, y_ in sub])
+        r, m = q.differs(b, want)
+        if r == "unsat":
+            _ok(res, "C01")
+        elif r == "sat":
+            stale = "stale_ydot" in str(z3.simplify(R(b)))
+            _viol(res, "C01", f"{name}:ydot[{i}]", f"second evaluation of the right-hand side (same process, other abundances) gives for slot {i} {str(z3.simplify(R(b)))[:200]}, not the first evaluation's law at the new abundances {str(z3.simplify(want))[:200]}" + (" (the slot keeps what the buffer held)" if stale else ""),
+                  {"case": case.name, "target": tdir, "slot": i, "spec": _small_spec(case), "replay_note": "terms of two consecutive executions of the compiled right-hand side on one state"})
+            return
+        else:
+            _unk(res, "C01", f"{name}:ydot[{i}]", r)
+            return
 
 
 def _c03_second_call(case, p, tdir, res, q, NEQ, NNZ, tag):
